@@ -685,8 +685,115 @@ func (e *Env) quant(x *EQuant) Val {
 	return g.boolVal(fmt.Sprintf("(%s (%s) %s)", q, strings.Join(decl, " "), body))
 }
 
+// tryPlace resolves an expression to a memory place (without loading the whole enclosing struct), when it
+// denotes one: a field of a place, a field behind a pointer, or an element of a slice of structs.
+func (e *Env) tryPlace(x Expr) (*Place, types.Type, bool) {
+	g := e.g
+	switch x := x.(type) {
+	case *EIndex:
+		// element of a slice of structs
+		if _, isIdent := x.X.(*EIdent); !isIdent {
+			if _, isSel := x.X.(*ESel); !isSel {
+				return nil, nil, false
+			}
+		}
+		var v Val
+		if pl, t, ok := e.tryPlace(x.X); ok {
+			v = g.loadAt(pl, t, e.loadHeap())
+		} else {
+			if id, isIdent := x.X.(*EIdent); isIdent {
+				if _, bound := e.bind[id.Name]; !bound && !e.isLocal(id.Name) && id.Name != "result" {
+					return nil, nil, false
+				}
+			}
+			v = e.tr(x.X)
+		}
+		if v.GT == nil {
+			return nil, nil, false
+		}
+		st, ok := v.GT.Underlying().(*types.Slice)
+		if !ok || isLeafElem(st.Elem()) {
+			return nil, nil, false
+		}
+		i := e.concretize(e.tr(x.I), tInt)
+		arr := app("s_arr", v.S)
+		ptr := fmt.Sprintf("(mk-ptr (obj %s) (elem (path %s) %s))", arr, arr, app("sl.idx", v.S, g.toIdx(i)))
+		return &Place{Kind: 4, Ptr: ptr}, st.Elem(), true
+	case *ESel:
+		if id, ok := x.X.(*EIdent); ok {
+			if _, bound := e.bind[id.Name]; !bound && !e.isLocal(id.Name) && e.findPkg(id.Name) != nil {
+				return nil, nil, false // package-qualified name
+			}
+		}
+		if base, bt, ok := e.tryPlace(x.X); ok {
+			if st, isStruct := bt.Underlying().(*types.Struct); isStruct {
+				_, path := findField(bt, st, x.Sel)
+				if path == nil {
+					return nil, nil, false
+				}
+				cur, curT := base, bt
+				for _, i := range path {
+					cur = g.subPlace(cur, curT, i)
+					curT = curT.Underlying().(*types.Struct).Field(i).Type()
+				}
+				return cur, curT, true
+			}
+			if pt, isPtr := bt.Underlying().(*types.Pointer); isPtr {
+				// a pointer stored at a place: load the pointer, then select behind it
+				pv := g.loadAt(base, bt, e.loadHeap())
+				return e.placeBehind(pv, pt, x.Sel)
+			}
+			return nil, nil, false
+		}
+		// a pointer-valued expression
+		if _, isCall := x.X.(*ECall); isCall {
+			v := e.tr(x.X)
+			if v.GT != nil {
+				if pt, isPtr := v.GT.Underlying().(*types.Pointer); isPtr {
+					return e.placeBehind(v, pt, x.Sel)
+				}
+			}
+		}
+		if id, isIdent := x.X.(*EIdent); isIdent {
+			if _, bound := e.bind[id.Name]; bound || e.isLocal(id.Name) || id.Name == "result" {
+				v := e.tr(x.X)
+				if v.GT != nil {
+					if pt, isPtr := v.GT.Underlying().(*types.Pointer); isPtr {
+						return e.placeBehind(v, pt, x.Sel)
+					}
+				}
+			}
+		}
+	}
+	return nil, nil, false
+}
+
+func (e *Env) placeBehind(v Val, pt *types.Pointer, selName string) (*Place, types.Type, bool) {
+	g := e.g
+	st, ok := pt.Elem().Underlying().(*types.Struct)
+	if !ok {
+		return nil, nil, false
+	}
+	_, path := findField(pt.Elem(), st, selName)
+	if path == nil {
+		return nil, nil, false
+	}
+	var cur *Place = v.Place
+	curT := pt.Elem()
+	curPtr := v.S
+	for _, i := range path {
+		cur = g.fieldPlaceFrom(cur, curPtr, curT, i)
+		curPtr = cur.Ptr
+		curT = curT.Underlying().(*types.Struct).Field(i).Type()
+	}
+	return cur, curT, true
+}
+
 func (e *Env) sel(x *ESel) Val {
 	g := e.g
+	if pl, t, ok := e.tryPlace(x); ok {
+		return g.loadAt(pl, t, e.loadHeap())
+	}
 	// package-qualified constant or pseudo-package
 	if id, ok := x.X.(*EIdent); ok {
 		if _, bound := e.bind[id.Name]; !bound && !e.isLocal(id.Name) {
